@@ -190,7 +190,20 @@ def t_custom_hard():
             iff("t", "ge", 50, [op("fatalf", site=1)])]
 
 
+def t_custom_fatal():
+    # the failure is raised inside the Custom generator function / inside a Filter predicate, after it has drawn: those draws belong to the failing test case
+    return [draw(g("Int8"), "p"),
+            draw(g("Custom", elem=g("Int16"), body=[draw(IntRange(0, 9), "a", "a"), iff("a", "le", 1, [op("skip")]), draw(g("Int16"), "w", "w"),
+                                                    iff("w", "ge", 100, [op("fatalf", site=3)])]), "c"),
+            draw(g("SliceOf", elem=g("Byte")), "tail")]
+
+
+def t_filter_panics():
+    return [draw(g("Int8"), "p"), draw(g("Filter", elem=IntRange(0, 1000), pred="boom"), "f"), draw(g("SliceOf", elem=g("Byte")), "tail")]
+
+
 TEMPLATES = {
+    "custom_fatal": t_custom_fatal, "filter_panics": t_filter_panics,
     "custom_hard": t_custom_hard,
     "makemap": t_makemap, "custom_empty": t_custom_empty, "sm2": t_sm2, "cleanup_skip_errorf": t_cleanup_skip_errorf, "regexp_retry": t_regexp_retry,
     "ctx": t_ctx,
@@ -220,7 +233,7 @@ def c01(tier, seed):
     out = []
     # rejection-based generators with minimization cut at once: the reported case is the pruned original,
     # which must replay (forced stops, duplicate keys, over-long strings, skipped actions)
-    for tn in ("distinct", "map", "string", "sm", "custom", "filter", "makemap", "regexp_retry", "sm2", "custom_hard"):
+    for tn in ("distinct", "map", "string", "sm", "custom", "filter", "makemap", "regexp_retry", "sm2", "custom_hard", "custom_fatal", "filter_panics"):
         for sd in seeds(rng, (14 if tn != "custom_hard" else 70) if tier == "quick" else 150):
             out.append(scenario("c01-pruned-%s-%d-%d" % (tn, sd, len(out)), {"body": TEMPLATES[tn]()},
                                 {"checks": 100, "seed": sd, "nofailfile": "true", "shrinktime": "0s"}, tag={"template": tn, "shrink": "0s"}))
@@ -560,7 +573,7 @@ def c05(tier, seed):
     out = []
     n = 12 if tier == "quick" else 300
     tmpl = ["multisite", "errorf_then_panic", "threshold", "distinct", "map", "filter", "sm", "string", "custom", "sampled", "nonfatal",
-            "makemap", "custom_empty", "regexp_retry", "sm2", "cleanup_skip_errorf", "custom_hard"]
+            "makemap", "custom_empty", "regexp_retry", "sm2", "cleanup_skip_errorf", "custom_hard", "custom_fatal", "filter_panics"]
     for i in range(n):
         for tn in tmpl:
             if tier == "quick" and i >= 4 and tn not in ("multisite", "errorf_then_panic", "distinct", "makemap", "custom_empty", "custom_hard"):
@@ -948,6 +961,9 @@ def c04_bodies():
         "regexp_retry": [draw(g("StringMatching", expr="[a-c]\\b."), "r"), draw(g("SliceOfBytesMatching", expr="^x?\\bfoo\\b|[a-z]$"), "rb"), draw(g("Int8"), "t")],
         "sm2": [op("repeat", actions={"left": [draw(g("Bool"), "b")], "right": [draw(g("Byte"), "c")]}), draw(g("Int8"), "after")],
         "custom_hard": t_custom_hard()[:-1],
+        "custom_fatal": [draw(g("Int8"), "p"), draw(g("Custom", elem=g("Int16"), body=[draw(IntRange(0, 9), "a", "a"), iff("a", "le", 1, [op("skip")]),
+                                                                                         draw(g("Int16"), "w"), op("fatalf", site=3)]), "c")],
+        "filter_panics": [draw(g("Int8"), "p"), draw(g("Filter", elem=IntRange(0, 1000), pred="boom"), "f"), draw(g("Filter", elem=IntRange(4, 4), pred="boom"), "f2")],
         "makemapbool": [draw(g("Make", type="mapboolint"), "mb"), draw(g("Make", type="mapbyteint"), "mi"), draw(g("Int8"), "t")],
         "floats": [draw(g("Float64"), "f"), draw(g("Float32Range", min="-1", max="1"), "g"), draw(g("Float64Range", min="0", max="inf"), "h")],
         "perm": [draw(g("Permutation", items=["1", "2", "3", "4"]), "p"), draw(g("OneOf", gens=[g("Int8"), IntRange(5, 6)]), "o"), draw(g("Ptr", elem=g("Int"), allowNil=True), "q")],
@@ -976,6 +992,24 @@ def c04(tier, seed):
                     {"warm": rng.sample(["strings", "labels", "check", "failcheck"], 2)},   # same seed again after unrelated activity
                     {"freshProc": True}]                                                    # ... and in a new process
             out.append(scenario("c04-%s-%d-%d" % (bn, sd, len(out)), {"body": body}, fl, runs=runs, tag={"body": bn, "rel": rel}))
+    return out
+
+
+def c04_short(tier, seed):
+    """State machines in a process started with -test.short (rapid then runs a fifth of the checks and half the steps): the same seed still
+    yields the same test cases every time, and recordings replay."""
+    rng = random.Random(seed + 4)
+    out = []
+    bodies = c04_bodies()
+    rel = [{"a": "repro@1", "kind": "replay", "b": "gen@1"}, {"a": "final@1", "kind": "pruned", "b": "repro@1"},
+           {"a": "fuzz1", "kind": "replay", "b": "repro@1"}, {"a": "fuzz2", "kind": "pruned", "b": "repro@1"},
+           {"a": "gen@3", "kind": "replay", "b": "gen@1"}, {"a": "gen@4", "kind": "replay", "b": "gen@1"}]
+    for bn in ("sm", "sm2"):
+        for sd in seeds(rng, 3 if tier == "quick" else 40):
+            body = bodies[bn] + [op("fatalf", site=1)]
+            fl = {"checks": 5, "seed": sd, "nofailfile": "true", "shrinktime": "0s", "steps": rng.choice([6, 30])}
+            runs = [{}, {"entry": "fuzz", "fuzzFrom": ["recorded", "pruned"]}, {"warm": ["check", "failcheck"]}, {}]
+            out.append(scenario("c04-short-%s-%d-%d" % (bn, sd, len(out)), {"body": body}, fl, runs=runs, tag={"body": bn, "rel": rel, "short": True}))
     return out
 
 
